@@ -46,6 +46,17 @@ theorem foldInsert_get_congr [Add K] [Mul K] (fs : List (Fld K)) (out out' : Arr
     exact ih _ _ (by rw [insertArr_s0, insertArr_s0, h0]) (by rw [insertArr_s1, insertArr_s1, h1])
       (insertArr_get_congr f out out' w i j h0 h1 h)
 
+theorem scratchTooSmall_true_iff (scr : Arr K) (S : Int × Int) :
+    scratchTooSmall (some scr) S = true ↔ scr.s0 < S.1 ∨ scr.s1 < S.2 := by
+  simp only [scratchTooSmall, Gen.fftScratchTooSmall, Bool.not_eq_true', Bool.and_eq_false_iff, decide_eq_false_iff_not]; omega
+
+theorem scratchTooSmall_false_iff (scr : Arr K) (S : Int × Int) :
+    scratchTooSmall (some scr) S = false ↔ scr.s0 ≥ S.1 ∧ scr.s1 ≥ S.2 := by
+  simp only [scratchTooSmall, Gen.fftScratchTooSmall, Bool.not_eq_false', Bool.and_eq_true, decide_eq_true_eq]
+
+theorem fftShapeOut_some (sh S : Int × Int) (os : Int) : fftShapeOut (some sh) S os = (sh.1 * os, sh.2 * os) := rfl
+theorem fftShapeOut_none (S : Int × Int) (os : Int) : fftShapeOut none S os = S := rfl
+
 theorem hasTilt_cons (a : Int) (l : List Int) :
     Gen.hasTilt (a :: l) = (if (decide (a ≠ (0 : Int))) then true else Gen.hasTilt l) := rfl
 
